@@ -115,6 +115,22 @@ def skipped_levels_single_child(h):
                 bad.append('the HOG materialised for the skipped level %s has %d children' % (nodekey(n), len(n.children)))
     return bad
 
+def no_orphans(h):
+    """C04 literally, for any loaded file: each ancestral genome lists exactly the HOGs placed at its taxon that are
+    reachable from a listed top-level HOG, each once (theorem C04_registration_exact holds for ANY successful load)"""
+    bad = []
+    per = collections.defaultdict(list)
+    for top in h.get_list_top_level_hogs():
+        for n in all_nodes(top):
+            if isinstance(n, ag.HOG):
+                per[id(n.genome)].append(n)
+    for p, g in genomes_of(h).items():
+        if g.taxon.is_leaf():
+            continue
+        if collections.Counter(map(id, g.genes)) != collections.Counter(map(id, per.get(id(g), []))):
+            bad.append('ancestral genome at %s lists %d HOGs, %d are placed there and reachable from a top-level HOG' % (taxS(p), len(g.genes), len(per.get(id(g), []))))
+    return bad
+
 def c03(D, h):
     bad = skipped_levels_single_child(h)
     tops = h.get_dict_top_level_hogs()
@@ -467,7 +483,7 @@ def fresh_results(calls):
 
 def c16(D, h):
     bad = []
-    gs = genomes_of(h)
+    gs = genomes_of(h) if not D.meta.get('species_level') else {}     # (D7: the flag-dependent clauses are not checked on species-level files)
     ids = lambda xs: sorted(map(id, xs))
     for top in h.get_list_top_level_hogs()[:3]:
         bad += fresh_results([
